@@ -46,6 +46,7 @@ def make_scratch(mut):
 
 
 def run_one(pid, mut, tier, tests):
+    tier = mut.get("tier", tier)
     d = make_scratch(mut)
     try:
         env = dict(os.environ, VERIF_REPO=d, VERIF_OUT=d, PYTHONDONTWRITEBYTECODE="1")
@@ -62,10 +63,13 @@ def run_one(pid, mut, tier, tests):
         tests_ok = None
         if tests:
             env2 = dict(os.environ, PYTHONPATH=d, PYTHONDONTWRITEBYTECODE="1")
-            t = subprocess.run(["/venv/bin/python", "-m", "pytest", "-q", "-x", "-p", "no:cacheprovider", "tests"],
-                               cwd=d, env=env2, capture_output=True, text=True)
-            tests_ok = t.returncode == 0
-        return {"property": pid, "mutant": mut["name"], "detected": detected, "exit": r.returncode, "clause": clause,
+            try:
+                t = subprocess.run(["/venv/bin/python", "-m", "pytest", "-q", "-x", "-p", "no:cacheprovider",
+                                    "--timeout=60", "tests"], cwd=d, env=env2, capture_output=True, text=True, timeout=300)
+                tests_ok = t.returncode == 0
+            except subprocess.TimeoutExpired:
+                tests_ok = False
+        return {"property": pid, "mutant": mut["name"], "detected": detected, "expect": mut.get("expect"), "exit": r.returncode, "clause": clause,
                 "tests_pass": tests_ok, "tail": "" if detected else r.stdout[-600:] + r.stderr[-600:]}
     finally:
         shutil.rmtree(d, ignore_errors=True)
@@ -95,10 +99,10 @@ def main(argv):
         results = list(ex.map(lambda w: run_one(w[0], w[1], tier, tests), work))
     missed = 0
     for r in results:
-        status = "DETECTED" if r["detected"] else "MISSED  "
+        status = "DETECTED" if r["detected"] else ("EQUIV   " if r.get("expect") == "equivalent" else "MISSED  ")
         t = "" if r["tests_pass"] is None else (" tests=pass" if r["tests_pass"] else " tests=FAIL")
         print(f"{status} {r['property']} {r['mutant']}{t} {r['clause']}")
-        if not r["detected"]:
+        if not r["detected"] and r.get("expect") != "equivalent":
             missed += 1
             print("   ", r["tail"].replace("\n", "\n    "))
     print(f"{len(results) - missed}/{len(results)} mutants detected")
